@@ -1105,69 +1105,70 @@ func ruleChunkPositive(c *Ctx, rule string) {
 		}
 	}
 	visit(fn)
-	if len(sizes) == 0 {
-		// the other way of counting chunks: the number of rounds is computed once by an integer
-		// division by the size. The size is zero for an empty set (its rounded-up quotient is 0), so
-		// the division has to be behind a test that excludes that.
-		var divs []*ssa.BinOp
-		var find func(f *ssa.Function)
-		find = func(f *ssa.Function) {
-			for _, b := range f.Blocks {
-				for _, ins := range b.Instrs {
-					if bo, ok := ins.(*ssa.BinOp); ok && (bo.Op == token.QUO || bo.Op == token.REM) && isIntegral(bo.Type()) {
-						if _, isK := bo.Y.(*ssa.Const); !isK {
-							divs = append(divs, bo)
-						}
+	// the other way of counting chunks: the number of rounds is computed once by an integer
+	// division by the size. The size is zero for an empty set (its rounded-up quotient is 0), so
+	// every such division has to be behind a test that excludes that — also when only one of the
+	// two loops counts that way.
+	var divs []*ssa.BinOp
+	var find func(f *ssa.Function)
+	find = func(f *ssa.Function) {
+		for _, b := range f.Blocks {
+			for _, ins := range b.Instrs {
+				if bo, ok := ins.(*ssa.BinOp); ok && (bo.Op == token.QUO || bo.Op == token.REM) && isIntegral(bo.Type()) {
+					if _, isK := bo.Y.(*ssa.Const); !isK {
+						divs = append(divs, bo)
 					}
 				}
 			}
-			for _, an := range f.AnonFuncs {
-				find(an)
-			}
 		}
-		find(fn)
-		if len(divs) == 0 {
-			c.und(rule, key, fn.Pos(), "no loop of the form counter*size < n found, and no division by the size")
-			return
+		for _, an := range f.AnonFuncs {
+			find(an)
 		}
-		for _, dv := range divs {
-			isLen := func(v ssa.Value) bool {
-				call, ok := v.(*ssa.Call)
-				return ok && call.Call.IsInvoke() && call.Call.Method.Name() == "Len"
-			}
-			excluded := false
-			for _, bf := range branchesAt(dv.Block()) {
-				var op token.Token
-				var lim int64
-				switch {
-				case bf.cond.X == dv.Y || isLen(bf.cond.X):
-					k, isK := constIntVal(bf.cond.Y)
-					if !isK {
-						continue
-					}
-					op, lim = effectiveOp(bf, true), k
-				case bf.cond.Y == dv.Y || isLen(bf.cond.Y):
-					k, isK := constIntVal(bf.cond.X)
-					if !isK {
-						continue
-					}
-					op, lim = effectiveOp(bf, false), k
-				default:
+	}
+	find(fn)
+	if len(sizes) == 0 && len(divs) == 0 {
+		c.und(rule, key, fn.Pos(), "no loop of the form counter*size < n found, and no division by the size")
+		return
+	}
+	for _, dv := range divs {
+		isLen := func(v ssa.Value) bool {
+			call, ok := v.(*ssa.Call)
+			return ok && call.Call.IsInvoke() && call.Call.Method.Name() == "Len"
+		}
+		excluded := false
+		for _, bf := range branchesAt(dv.Block()) {
+			var op token.Token
+			var lim int64
+			switch {
+			case bf.cond.X == dv.Y || isLen(bf.cond.X):
+				k, isK := constIntVal(bf.cond.Y)
+				if !isK {
 					continue
 				}
-				if (op == token.NEQ && lim == 0) || (op == token.GTR && lim >= 0) || (op == token.GEQ && lim >= 1) {
-					excluded = true
+				op, lim = effectiveOp(bf, true), k
+			case bf.cond.Y == dv.Y || isLen(bf.cond.Y):
+				k, isK := constIntVal(bf.cond.X)
+				if !isK {
+					continue
 				}
+				op, lim = effectiveOp(bf, false), k
+			default:
+				continue
 			}
-			if !excluded {
-				c.bad(rule, key, dv.Pos(), "the number of rounds is computed by dividing by the chunk size ("+symName(dv.Y, nil)+") with no dominating test that the set is not empty: for an empty set the size is zero and Map panics with a division by zero instead of returning no results")
-				return
-			}
-			if w := notRoundedUp(dv.Y, fn, 0); w != "" {
-				c.bad(rule, key, dv.Pos(), "the chunk size the number of rounds is divided by is "+w)
-				return
+			if (op == token.NEQ && lim == 0) || (op == token.GTR && lim >= 0) || (op == token.GEQ && lim >= 1) {
+				excluded = true
 			}
 		}
+		if !excluded {
+			c.bad(rule, key, dv.Pos(), "the number of rounds is computed by dividing by the chunk size ("+symName(dv.Y, nil)+") with no dominating test that the set is not empty: for an empty set the size is zero and Map panics with a division by zero instead of returning no results")
+			return
+		}
+		if w := notRoundedUp(dv.Y, fn, 0); w != "" {
+			c.bad(rule, key, dv.Pos(), "the chunk size the number of rounds is divided by is "+w)
+			return
+		}
+	}
+	if len(sizes) == 0 {
 		c.ok(rule, key, fn.Pos(), "the number of rounds is a division by a rounded-up chunk size behind a test that the set is not empty")
 		return
 	}
